@@ -12,7 +12,7 @@ import (
 
 // QMisuseKinds lists the sub-kinds of KQMisuse.
 var QMisuseKinds = []string{"get_before_next", "get_after_end", "get_after_close", "next_after_end", "next_twice_after_end", "entity_after_end", "entity_before_next",
-	"unsafe_get_missing", "unsafe_getrel_missing", "map_get_missing", "map_set_missing", "unsafe_query_get_after_end", "next_after_early_close"}
+	"unsafe_get_missing", "unsafe_getrel_missing", "map_get_missing", "map_set_missing", "unsafe_query_get_after_end", "next_after_early_close", "mapn_set_missing"}
 
 func (s *Sim) opQMisuse(op *Op) {
 	if s.lockDepth >= 60 {
@@ -20,6 +20,49 @@ func (s *Sim) opQMisuse(op *Op) {
 		return
 	}
 	switch op.M {
+	case "mapn_set_missing":
+		// MapN.Set on an entity that has the first components of the tuple but lacks a later
+		// one: all builds panic; whatever the call wrote before is part of the result
+		e := s.M.PickLive(op.E)
+		if e == nil {
+			s.skip(op)
+			return
+		}
+		idx := -1
+		for k := 0; k < len(MapTuples)-NumMapSingles; k++ {
+			i := NumMapSingles + (abs(op.N)+k)%(len(MapTuples)-NumMapSingles)
+			tu := MapTuples[i]
+			if len(tu) >= 2 && e.Has(tu[0]) && !e.Has(tu...) && U[tu[0]].Size > 0 {
+				idx = i
+				break
+			}
+		}
+		if idx < 0 {
+			s.skip(op)
+			return
+		}
+		tuple := MapTuples[idx]
+		vals := make([]uint64, len(tuple))
+		for i := range vals {
+			vals[i] = uint64(0x5e7000) + uint64(s.OpIdx)*16 + uint64(i)
+		}
+		p, _ := s.call(func() { s.mapper(idx).Set(e.H, vals) })
+		res := ""
+		for _, t := range tuple {
+			if !e.Has(t) || U[t].Size == 0 {
+				continue
+			}
+			got := U[t].Get(s.W.Unsafe().Get(e.H, s.ids[t]))
+			if got != e.Comps[t] {
+				res += fmt.Sprintf(" T%02d:written", t)
+				e.Comps[t] = got // the model follows the world: the difference between builds is what is checked
+			} else {
+				res += fmt.Sprintf(" T%02d:kept", t)
+			}
+		}
+		s.C.Faults["qmisuse_"+op.M]++
+		s.tracef("%d QMisuse %s %s panic=%v res=%s", s.OpIdx, op.M, mapperName(tuple, idx), p, res)
+		return
 	case "unsafe_get_missing", "unsafe_getrel_missing", "map_get_missing", "map_set_missing":
 		e := s.M.PickLive(op.E)
 		if e == nil {
